@@ -14,3 +14,29 @@ package composite
 //@   assert [C05:ready-not-overstated] $cs[1].Status == "True" ==>
 //@        (res.Composite.Ready != nil && *res.Composite.Ready) || (res.Composite.Ready == nil && len(unready) == 0)
 //@ ensures [C05:requeue] result == (len(unsynced) > 0 || len(unready) > 0)
+
+// The XR reconciler: unsynced / unready composed resources are never dropped on the way to
+// updateXRConditions, and a system condition (Ready, Synced) is only ever written from one of
+// the reconciler's own constructors, never from a value that came out of a function pipeline.
+
+//@ func (*composite.Reconciler).Reconcile
+//@ props C05
+//@ loop range res.Composed
+//@   invariant [C05:unsynced-collected] (exists j :: 0 <= j && j < done && !res.Composed[j].Synced) ==> len(unsynced) > 0
+//@   invariant [C05:unready-collected] (exists j :: 0 <= j && j < done && !res.Composed[j].Ready) ==> len(unready) > 0
+//@ site composite.updateXRConditions(_, $unsynced, $unready, $res)
+//@   assert [C05:unsynced-passed] (exists j :: 0 <= j && j < len($res.Composed) && !$res.Composed[j].Synced) ==> len($unsynced) > 0
+//@   assert [C05:unready-passed] (exists j :: 0 <= j && j < len($res.Composed) && !$res.Composed[j].Ready) ==> len($unready) > 0
+//@ site (*composite.Unstructured).SetConditions(_, $cs...)
+//@   assert [C05:system-conditions-only-from-machinery] forall i :: 0 <= i && i < len($cs) && xpv1.IsSystemConditionType($cs[i].Type)
+//@        ==> ($cs[i].Reason == "ReconcileError" || $cs[i].Reason == "ReconcileSuccess" || $cs[i].Reason == "ReconcilePaused" || $cs[i].Reason == "Deleting")
+//@ site (*composite.Unstructured).SetConditions(_, $cs...) as SetConditions-fatal
+//@   where len($cs) == 1 && $cs[0].Reason == reasonFatalError
+//@   assert [C05:fatal-marks-unknown] $cs[0].Status == "Unknown" && !xpv1.IsSystemConditionType($cs[0].Type)
+
+//@ func (*composite.Reconciler).handleCommonCompositionResult
+//@ props C05
+//@ site (*composite.Unstructured).SetConditions(_, $cs...)
+//@   assert [C05:no-forged-system-condition] forall i :: 0 <= i && i < len($cs) ==> !xpv1.IsSystemConditionType($cs[i].Type)
+//@ site (*composite.Unstructured).SetClaimConditionTypes(_, $ts...)
+//@   assert [C05:no-forged-claim-condition-type] forall i :: 0 <= i && i < len($ts) ==> !xpv1.IsSystemConditionType($ts[i])
